@@ -3,7 +3,7 @@
    t_arr_precheck = true in the scanned tree).  Each statement instantiates the faithful model with the quirk flag q = true or
    with `set_precheck false`, i.e. with the behaviour before the fixes of F-PY-ARRELEM / F-PY-ARRWRAP. *)
 From Coq Require Import List NArith ZArith Bool.
-From Verif Require Import PyObj Gen_PyObj PyObjThm PyObjThmWrap.
+From Verif Require Import PyObj Gen_PyObj PyObjThm PyObjThmWrap PyObjThmReject.
 Import ListNotations.
 Open Scope Z_scope.
 
@@ -46,3 +46,11 @@ Theorem C18h_array_src_partial : forall q fixed cap sl k zs v, (exists w, k = KU
   v = PArr (dtype_of PW (EPrim k)) (map PInt zs) /\
   Forall (fun z => fits (dtype_of PW (EPrim k)) (PInt z) = true) zs.
 Proof. exact array_src_partial. Qed.
+
+(* F-PY-NUMTEXT: without the text guard, bytes that cannot be taken as an array of bytes (illegal length) go to the conversion
+   path, and np.array(b'123', uint8) parses ONE integer.  Until the fix lands in /repo this describes the current tree
+   (t_text_guard tmpl_gen = false); afterwards it is a record of the defect. *)
+Theorem C18h_numeric_text_refuted : forall q,
+  assign_array (set_text_guard false TG) PW q false 2 false (EPrim (KU 8)) (PBytes [49%N; 50%N; 51%N]) = Ok (PArr (DU 8) [PInt 123]) /\
+  assign_array (set_text_guard false TG) PW q true 1 false (EPrim (KU 8)) (PBytes [49%N; 50%N]) = Ok (PArr (DU 8) [PInt 12]).
+Proof. exact numeric_text_refuted. Qed.
